@@ -161,6 +161,7 @@ def eval_layer(ctx, rep, desc, rng, big, pending, corpus=None):
     except Exception as e:
         ctx.count("layer_load_failed:" + type(e).__name__)
         return
+    view.dcod = D.desc_codings(desc)
     ctx.count("layers")
     ctx.histo("services_per_layer", len(view.services))
     ctx.histo("gnrs_per_layer", len(view.gnrs))
@@ -273,6 +274,26 @@ def check_decode(ctx, rep, op, desc, view, info, line, impl, reply):
         ctx.disagree(op, w, r["res"], res)
     ctx.histo("model_outcome", r["res"][0] if r["res"][0] == "ok" else "err:" + r["res"][1])
     ctx.histo("envelope", "unambiguous" if r["unamb"] else "ambiguous")
+    # ---- direct oracle on the per-coding-object decoding the model takes as given: "parameters match M" read off the
+    #      description alone (message long enough, NRC-CONST value one of the alternatives, PHYS-CONST value in strict
+    #      mode) against request.decode / response.decode in this mode, for every coding object of the layer
+    dcod = getattr(view, "dcod", {})
+    for n, co in view.cobj.items():
+        o = outs.get(n)
+        cd = dcod.get(getattr(co, "short_name", None))
+        if cd is None or o is None or o == "foreign":
+            continue
+        why = D.desc_verdict(cd, msg, strict)
+        ctx.histo("coding_object_verdict", why or "matches")
+        if (o == "ok") != (why is None):
+            how = "accepted" if o == "ok" else "rejected"
+            ctx.histo("coding_object_violation", f"{how}/{why or 'matches'}/{'strict' if strict else 'lenient'}")
+            rep.violate("coding-object-match", [how, why or "matches", "strict" if strict else "lenient"], o,
+                        {**w, "coding": cd["name"], "expected": why or "ok"},
+                        f"{'request' if view.is_request(n) else 'response'} {cd['name']} {'decodes' if o == 'ok' else 'does not decode'} "
+                        f"{msg.hex()} in {'strict' if strict else 'non-strict'} mode ({o}) although its parameters "
+                        f"{'do not match (' + why + ')' if why else 'match'}")
+            break
     # ---- direct oracle: the Lean *Spec* (attributed services) against the implementation
     attr = r["attr"]
     if any(o == "foreign" for o in outs.values()):
